@@ -840,9 +840,17 @@ def handleLx (st : St) (args : List String) : St × String :=
     | some id, some w =>
       match st.lxs.find? (·.1 = id) with
       | some (_, C) =>
+        let show1 := fun (s : Lx.St) =>
+          s!"ok lexs={showSets s.lexs} po={showNatList (canonSet (Lx.possible s.ls))} ac={showNatList (canonSet (Lx.accepting C s.ls))} pend={showBool s.pending} acc={showBool (Lx.isAccepting C s)} rows={s.rows.length} mask={showByteSet (Lx.allowedBytes C s)}"
         match Lx.run C (Lx.init C) w with
         | some s =>
-          (st, s!"ok lexs={showSets s.lexs} po={showNatList (canonSet (Lx.possible s.ls))} ac={showNatList (canonSet (Lx.accepting C s.ls))} pend={showBool s.pending} acc={showBool (Lx.isAccepting C s)} rows={s.rows.length} mask={showByteSet (Lx.allowedBytes C s)}")
+          -- second view of the last byte: the lexeme left open where only the semantic end-of-input test fires
+          let alt : Option Lx.St := match w.reverse with
+            | [] => none
+            | b :: pre => (Lx.run C (Lx.init C) pre.reverse).bind (fun s0 => Lx.pushLate C s0 b)
+          match alt with
+          | some s2 => if show1 s2 = show1 s then (st, show1 s) else (st, show1 s ++ " || " ++ show1 s2)
+          | none => (st, show1 s)
         | none => (st, "dead")
       | none => (st, "no-such-lx")
     | _, _ => (st, "bad-op")
